@@ -11,6 +11,7 @@ CONSTANTS
   Addl <- CAddl
   Ops <- QCOps
   MaxWord = 0
+  Letters = {"n", "b"}
 VIEW DumpView
 ACTION_CONSTRAINT Emit
 CHECK_DEADLOCK FALSE
